@@ -57,7 +57,12 @@ func newFnExec(p *Prog, fn *ssa.Function, fc *FuncContract) *FnExec {
 		assumed: map[string]bool{}, loopsOf: map[*ssa.Function]*loopInfo{}, fieldIDs: map[string]int{}, implQueries: map[int]types.Type{}, boundAsserts: map[string]bool{}}
 }
 
+func (fx *FnExec) fnx() *FnExec { return fx }
+
 func shortFn(fn *ssa.Function) string {
+	if fn == nil {
+		return "spec"
+	}
 	s := fn.String()
 	s = strings.ReplaceAll(s, "github.com/creachadair/jrpc2/", "")
 	s = strings.ReplaceAll(s, "github.com/creachadair/jrpc2.", "jrpc2.")
